@@ -1545,14 +1545,23 @@ where
         // Find the index for each of the `k` selected points.
         let table_values =
             Value::<Vec<C::CryptographicGroup>>::from_iter(table.iter().map(|point| point.value()));
-        let selected_idxs = selected
-            .iter()
-            .map(|point_value| {
-                point_value
-                    .zip(table_values.clone())
-                    .map(|(p, ts)| ts.iter().position(|table_val| *table_val == p).unwrap_or(0))
+        // Every search starts right after the previous match, so that a point that
+        // appears several times in the table can be selected several times.
+        let selected_idxs = Value::<Vec<C::CryptographicGroup>>::from_iter(selected.iter().cloned())
+            .zip(table_values)
+            .map(|(ps, ts)| {
+                let mut start = 0;
+                ps.iter()
+                    .map(|p| {
+                        let idx = (ts.iter().skip(start))
+                            .position(|table_val| table_val == p)
+                            .map_or(0, |i| i + start);
+                        start = idx + 1;
+                        idx
+                    })
+                    .collect::<Vec<_>>()
             })
-            .collect::<Vec<_>>();
+            .transpose_vec(k);
 
         // Assert that the selected values were provided in order of occurrence, this is
         // just a sanity check on CPU.
